@@ -32,7 +32,9 @@ class Check(EngineCheck):
     mix = [(0.5, {"cancel": True}), (0.15, {"cancel": True, "threads": True}), (0.15, {"cancel": True, "cyclic": True}), (0.1, {"foreign_cancel": True}),
            # injected database write failures: the engine reports the error, cancels and fails the build (with and without a
            # cancellation of our own on top); later builds must be clean
-           (0.1, {"dbfail": True, "cancel": True})]
+           (0.1, {"dbfail": True, "cancel": True}),
+           # directed: cancelled with several deferred tasks outstanding, two or more reported complete back-to-back
+           (0.1, {"drain": True})]
     budget = (350, 3500)
     assumptions = EngineCheck.assumptions + [
         "termination after cancellation ('never hangs'): a theorem for the transliterated engine (EngineImpl_terminates_async, under the size condition); on the real engine it is additionally watched by the harness watchdog with cancellation delivered at hook points, inside callbacks and from a foreign thread",
